@@ -365,6 +365,19 @@ CHECKS = {
                         "scenario": "csc",
                         "quick": 3000,
                         "thorough": 200000
+                },
+                {
+                        "module": "rueidis",
+                        "scenario": "cluster",
+                        "quick": 800,
+                        "thorough": 80000
+                },
+                {
+                        "module": "rueidis",
+                        "scenario": "cluster",
+                        "variant": "helpers2",
+                        "quick": 600,
+                        "thorough": 60000
                 }
         ],
         "expected_probes": [
@@ -375,7 +388,7 @@ CHECKS = {
                 "stubs": STUBS
         },
         "assumptions": [
-                "cluster clients are not covered yet"
+                "cluster parts: DoMultiCache batches over several nodes (also redirected with MOVED/ASK), MGetCache and JsonMGetCache; the positional rules of those calls (result i is the reply to command i, exactly the input keys, each key its own value) are the ones reported under C20 and C31 and are reported under C11 as well"
         ]
 },
     "C27": {
